@@ -89,13 +89,35 @@ func tailStr(s string, n int) string {
 
 // ReplayAll replays behaviours one after the other, each on a fresh server.
 func ReplayAll(run *ev.Run, plan Plan, traces []*Trace, source string) {
+	t0 := time.Now()
+	defer func() { run.Add("replay_ms_"+source, time.Since(t0).Milliseconds()) }()
 	g := NewGate()
 	defer g.Release()
 	drifts := 0
+	opt := Options{Sessions: plan.Sessions, Boxes: plan.Boxes, CheckDBEachStep: plan.CheckDBEachStep, MaxMsgs: plan.MaxMsgs, MaxUID: plan.MaxUID}
+	var pool *Pool
+	defer func() {
+		if pool != nil {
+			pool.Close()
+		}
+	}()
 	for ti, t := range traces {
-		rig, err := NewRig(g, Options{Sessions: plan.Sessions, Boxes: plan.Boxes, CheckDBEachStep: plan.CheckDBEachStep, MaxMsgs: plan.MaxMsgs, MaxUID: plan.MaxUID})
+		// one real server per worker; a fresh one after a behaviour that crashed or hung it
+		if pool != nil && !pool.Healthy() {
+			pool.Close()
+			pool = nil
+		}
+		if pool == nil {
+			p, err := NewPool(g, opt)
+			if err != nil {
+				run.Machinery("cannot start a server: %v", err)
+				return
+			}
+			pool = p
+		}
+		rig, err := pool.NewRig()
 		if err != nil {
-			run.Machinery("cannot start a server: %v", err)
+			run.Machinery("cannot prepare a behaviour: %v", err)
 			return
 		}
 		rep := rig.Run(t)
